@@ -274,6 +274,19 @@ def _run(ev, work, thorough):
     C16._pad(hists)
     hists = [h for h in hists if any(r.get("kind") == "refuse" or r.get("failg") for r in h)]
     ev.add_tlc("SingleFileExport: histories containing a refused or failing append", res, histories=len(hists))
+    # files whose columns are declared non-nullable: an append with a missing value in column c of row group g is refused
+    nh, nres = SF.export_histories(work, vals=(1,), maxops=2, kv=False, app=True, fail=True, meta=False, keys=("a",),
+                                   fail_kinds=("null",))
+    C16._pad(nh)
+    nh = [h for h in nh if any(r.get("why") == "null" for r in h)]
+    for i, h in enumerate(nh):
+        h[0]["required"] = True
+        # the kind of the three text columns rotates over the histories: every failing column is met as a categorical
+        # one (the writer's own missing-value test) and as plain text (refused by the encoder)
+        fc = [r["failc"] for r in h if r.get("why") == "null"][0]
+        h[0]["kinds"] = [("cat" if (c == fc) == (i % 3 != 2) else "str") for c in (1, 2, 3)]
+    ev.add_tlc("SingleFileExport, FailKinds = {null}: appends with a missing value in a non-nullable column", nres, histories=len(nh))
+    hists = hists + nh
     results = SF.run_replays(hists, work)
     straces = []
     for hid, r in enumerate(results):
